@@ -8,8 +8,8 @@
     Proofs/TlWireP.v, TlGoP.v, TlMatchP.v, TlSoundP.v, TlApiP.v.  The
     obligations on today's schema and bindings are in Properties/C10_gen.v. *)
 From Coq Require Import String List NArith Arith Bool.
-From Tongo Require Import Lib.Bits Lib.Res Spec.TlWire Model.Tl Model.TlMatch
-     Proofs.TlWireP Proofs.TlGoP Proofs.TlMatchP Proofs.TlSoundP Proofs.TlApiP.
+From Tongo Require Import Lib.Bits Lib.Res Spec.TlWire Model.Tl Model.TlMatch Model.TlHand
+     Proofs.TlWireP Proofs.TlGoP Proofs.TlMatchP Proofs.TlSoundP Proofs.TlApiP Proofs.TlHandP.
 Import ListNotations.
 Local Open Scope N_scope.
 
@@ -163,6 +163,59 @@ Section Checked.
   Proof. intros f m v e e0 Hm. exact (response_error S F B Hmatch f m v e Hids Hm e0). Qed.
 End Checked.
 
+(** * 5. Hand-written TL codecs outside generated.go (Model/TlHand.v): they write the layout of
+    the lite_api.tl declaration they stand for; their readers invert them.  The premises
+    about the schema (the declaration exists with these fields) are discharged for today's
+    lite_api.tl in Properties/C10_gen.v. *)
+
+(* ton.AccountID.MarshalTL = liteServer.accountId workchain:int id:int256 *)
+Theorem C10_hand_account_id_layout : forall sch d w a,
+  find_ctor sch "liteServer.accountId" = Some d -> dfields d = fields_account_id ->
+  w < two32 -> hash_ok a ->
+  tl_encode (go_naming sch) sch (TBare "liteServer.accountId") (val_account_id w a)
+    = Some (hand_account_marshal w a).
+Proof. exact hand_account_layout. Qed.
+
+Theorem C10_hand_account_id_roundtrip : forall w a rest, w < two32 -> length a = 32%nat ->
+  hand_account_unmarshal (hand_account_marshal w a ++ rest) = Some (w, a, rest).
+Proof. exact hand_account_roundtrip. Qed.
+
+(* tl.Marshal(ton.BlockID) (reflection walk) = tonNode.blockId workchain:int shard:long seqno:int *)
+Theorem C10_hand_block_id_layout : forall sch d w sh sq,
+  find_ctor sch "tonNode.blockId" = Some d -> dfields d = fields_block_id ->
+  w < two32 -> sh < two64 -> sq < two32 ->
+  tl_encode (go_naming sch) sch (TBare "tonNode.blockId") (val_block_id w sh sq)
+    = Some (hand_blockid_marshal w sh sq).
+Proof. exact hand_block_id_layout. Qed.
+
+Theorem C10_hand_block_id_roundtrip : forall w sh sq rest, w < two32 -> sh < two64 -> sq < two32 ->
+  hand_blockid_unmarshal (hand_blockid_marshal w sh sq ++ rest) = Some (w, sh, sq, rest).
+Proof. exact hand_block_id_roundtrip. Qed.
+
+(* ton.BlockIDExt.MarshalTL = tonNode.blockIdExt ... root_hash:int256 file_hash:int256 *)
+Theorem C10_hand_block_id_ext_layout : forall sch d w sh sq rh fh,
+  find_ctor sch "tonNode.blockIdExt" = Some d -> dfields d = fields_block_id_ext ->
+  w < two32 -> sh < two64 -> sq < two32 -> hash_ok rh -> hash_ok fh ->
+  tl_encode (go_naming sch) sch (TBare "tonNode.blockIdExt") (val_block_id_ext w sh sq rh fh)
+    = Some (hand_blockidext_marshal w sh sq rh fh).
+Proof. exact hand_block_id_ext_layout. Qed.
+
+Theorem C10_hand_block_id_ext_roundtrip : forall w sh sq rh fh,
+  w < two32 -> sh < two64 -> sq < two32 -> length rh = 32%nat -> length fh = 32%nat ->
+  hand_blockidext_unmarshal (hand_blockidext_marshal w sh sq rh fh) = Some (w, sh, sq, rh, fh).
+Proof. exact hand_block_id_ext_roundtrip. Qed.
+
+(* tlb.VmStack.MarshalTL / UnmarshalTL: the stack's BOC as a TL byte string (framing only) *)
+Theorem C10_hand_vmstack_layout : forall boc e, all_bytes boc = true ->
+  (hand_vmstack_frame boc = Ok e <-> enc schema_naming [] 1 TBytes (VBytes boc) = Some e).
+Proof. exact hand_vmstack_layout. Qed.
+
+Theorem C10_hand_vmstack_roundtrip : forall boc e rest, hand_vmstack_frame boc = Ok e ->
+  exists s, hand_vmstack_unframe (e ++ rest) = (Ok boc, s) /\ inp s = rest.
+Proof. exact hand_vmstack_roundtrip. Qed.
+
+Print Assumptions C10_hand_account_id_layout.
+Print Assumptions C10_hand_block_id_ext_layout.
 Print Assumptions C10_tl_roundtrip.
 Print Assumptions C10_tl_prefix_free.
 Print Assumptions C10_bytes_layout.
@@ -179,6 +232,9 @@ Print Assumptions C10_response_error_sound.
       for short strings): only "spec accepts => Go returns the same" is proved;
     - the translator (Go source -> terms) and the semantics of the mini-language are trusted by
       correspondence (harness/cmd/run/c10.go: every binding type and every request method);
+    - the models of the hand-written codecs (section 5) are tied to ton/account.go, ton/block.go and
+      tlb/stack.go by correspondence (kind c10.hand) and by cross-checking them against the generated
+      codecs of the same declarations; of tlb.VmStack only the TL framing is in scope here;
     - the generator -> artifact pair (re-running generator.go and comparing bytes) is not part of
       this file. *)
 Definition C10_gaps := tt.
